@@ -36,6 +36,14 @@ CFGS = [
 ]
 
 
+CFGS_THOROUGH = CFGS + [
+    dict(name='pipe-status-3-steps', H=3600, dur=3 * 3600, head_pump=True, controls=[dict(kind='status', target='P2', value=0), dict(kind='status', target='P2', value=1)]),
+    dict(name='valve-setting+pump-status', H=3600, dur=2 * 3600, controls=[dict(kind='setting', target='VT', value='sym'), dict(kind='status', target='PP', value=0)]),
+    dict(name='level+leak', H=3600, dur=2 * 3600, controls=[dict(kind='level', target='P2', rel='lt', value=0), dict(kind='leak', target='J2')]),
+    dict(name='rule-else+clock', H=3600, R=1200, dur=2 * 3600, clock=True, controls=[dict(kind='rule', target='P2', rel='lt', then=0, **{'else': 1}), dict(kind='status', target='VT', value=0, clock=True)]),
+]
+
+
 def model_dict(wn):
     d = wntr.network.to_dict(wn)
     d.pop('version', None)
@@ -217,6 +225,6 @@ def run(rep, only=None):
     rep.bound('one 5-node scenario (pipes, TCV, power pump, tank, leak); controls on pipe/valve/pump status, valve setting, leak_status, pump power, pump base_speed, a tank-level control and a rule; '
               'instants, setting values and the level threshold symbolic; <= 2 hydraulic steps; run / reset / rerun / partial run / deepcopy')
     rep.bound('numeric reruns with the real Newton solve (equal up to floating-point noise) are outside; the EPANET binary cannot reach Python objects, its Python side (write_inpfile) is checked structurally')
-    tasks = [('cfg-' + cfg['name'], check_cfg, (cfg,)) for cfg in CFGS]
+    tasks = [('cfg-' + cfg['name'], check_cfg, (cfg,)) for cfg in (CFGS_THOROUGH if rep.tier == 'thorough' else CFGS)]
     tasks.append(('inp-write', check_inp_write, ()))
     run_parallel(rep, tasks)
